@@ -98,4 +98,24 @@ META.update({
   "technique": "runtime monitoring: self-checking values + guard-pinned snapshots + interval-overlap checker over sampled reads, TSan/Miri",
  },
 })
+META.update({
+ "C04": {
+  "text": "Generated trees (names with ASCII, unicode, spaces; empty extension; one stem with several extensions; a directory and a file sharing an id; paths > 100 bytes; implied-only and empty directories; empty / NUL / 4 KiB contents) are materialised on disk, as tar and zip written in-process (natural / dirs-last / shuffled member order, with and without directory members, './' prefixes, stored and deflated) and independently by python3 tarfile (GNU, PAX) / zipfile, each opened in memory and file-backed (27 source forms per tree), and embedded at compile time by a generated crate; the ground truth is the generated tree: every directory's exact child multiset, every file's bytes, exists, NotFound for absent and kind-confused entries; 8 threads then read one source at once.",
+  "design_ref": "DESIGN.md §5 C04",
+  "note": "For archive forms without directory members the truth omits empty directories (they are not representable). The embedded form is checked by /verif/embed_gen, rebuilt on every run.",
+  "technique": "runtime monitoring: differential oracle (generated tree as ground truth) over every source kind and archive form",
+ },
+ "C11": {
+  "text": "On the trees and source forms of C04, for every directory id (root included) and element types with one extension, several extensions incl. the empty one, a hand-written DirLoadable compound and an Arc-wrapped asset: load_dir ids == sorted duplicate-free expected set, load_rec_dir ids == union over the subtree (multiset and set), iter loads precisely those ids, iter_cached yields precisely the cached ones, a missing directory is an error, and a sub-directory whose read_dir is denied (fault-injecting source wrapper) is skipped without hiding its siblings; on AssetCache and LocalAssetCache.",
+  "design_ref": "DESIGN.md §5 C11",
+  "note": "Unreadable directories are simulated by a wrapper source (the sandbox runs as root, chmod would be ignored).",
+  "technique": "runtime monitoring: expected-set oracle from the generated tree over every source kind, with injected read_dir faults",
+ },
+ "C12": {
+  "text": "(a) every entry of generated trees (root, top level, nested; files with / without extension; directories), vanished, outside and inexpressible paths, in './' and 'sibling/../' spellings, x 16 notify event kinds x one or two watched roots are fed to the crate's real event handler (hook H-B) and the delivered entries are compared with the inverse of path_of (+ parent for create / rename / remove); (b) real create / modify / delete / mkdir / rmdir / rename histories on a scratch directory through FsWatcherBuilder and inotify, each operation closed by a sentinel event (FIFO); (c) id_of_path(path_of(E)) == E and injectivity of path_of over all valid entries up to depth 3.",
+  "design_ref": "DESIGN.md §5 C12, §6 (hook H-B)",
+  "note": "Where the kind of a vanished path is unknowable either kind is accepted; EventKind::Any / Access / Other are only required not to name anything unrelated. Cannot run under Miri (inotify FFI).",
+  "technique": "runtime monitoring: inverse-function oracle over synthetic events fed to the real handler plus real inotify histories with a FIFO sentinel barrier",
+ },
+})
 NOT_BUILT = {}
